@@ -36,6 +36,10 @@ func nsOf(pid string) map[string]string {
 var nsFlag = map[string]uintptr{"user": unix.CLONE_NEWUSER, "pid": unix.CLONE_NEWPID, "mnt": unix.CLONE_NEWNS, "uts": unix.CLONE_NEWUTS,
 	"ipc": unix.CLONE_NEWIPC, "net": unix.CLONE_NEWNET, "cgroup": unix.CLONE_NEWCGROUP}
 
+type fixedCred struct{ uid, gid uint32 }
+
+func (f fixedCred) Get() syscall.Credential { return syscall.Credential{Uid: f.uid, Gid: f.gid} }
+
 func main() {
 	hx.Init()
 	runtime.LockOSThread()
@@ -52,6 +56,28 @@ func main() {
 		}
 	}()
 	hx.Cases(func(c map[string]any) map[string]any {
+		if c["mode"] == "container_ids" {
+			// a container whose program runs under a generated credential: the ids inside are the configured ones, each defaulting on its own
+			e2, err := hx.NewEnvWith(scratch, nil, func(b *container.Builder) {
+				b.CredGenerator = fixedCred{uint32(hx.Int(c["host_uid"])), uint32(hx.Int(c["host_gid"]))}
+				b.ContainerUID, b.ContainerGID = int(hx.Int(c["cuid"])), int(hx.Int(c["cgid"]))
+			})
+			if err != nil {
+				return map[string]any{"harness_err": err.Error()}
+			}
+			defer e2.Destroy()
+			buf, _ := pipe.NewBuffer(1 << 16)
+			null, _ := os.Open("/dev/null")
+			ctx, cancel := context.WithTimeout(context.Background(), 10*time.Second)
+			res := e2.Execve(ctx, container.ExecveParam{Args: []string{"/vb/probe_target", "secstate", "/nonexistent/out"}, Env: []string{}, Files: []uintptr{null.Fd(), buf.W.Fd(), buf.W.Fd()}})
+			cancel()
+			null.Close()
+			buf.W.Close()
+			<-buf.Done
+			var st map[string]any
+			json.Unmarshal(buf.Buffer.Bytes(), &st)
+			return map[string]any{"status": int(res.Status), "error": res.Error, "state": st}
+		}
 		if c["mode"] == "container" {
 			// one pooled container, a history of launches with different parameters: each launch starts in the state of ITS parameters
 			if cenv == nil {
